@@ -387,7 +387,11 @@ func (h *vfC19History) fail(t *rapid.T, format string, args ...any) {
 // check performs one Check step and applies the privacy, verdict and cache
 // transparency oracles to it.
 func (h *vfC19History) check(t *rapid.T) {
-	host := rapid.SampledFrom(h.hosts).Draw(t, "check_host")
+	h.checkHost(t, rapid.SampledFrom(h.hosts).Draw(t, "check_host"))
+}
+
+// checkHost is check for a chosen host.
+func (h *vfC19History) checkHost(t *rapid.T, host string) {
 	cands := vfC19Candidates(host)
 
 	// The admissible verdicts are fixed by what the service says now and by
@@ -399,6 +403,20 @@ func (h *vfC19History) check(t *rapid.T) {
 		if len(h.views(c.Hash.pfx())) > 1 {
 			stale = true
 		}
+	}
+
+	// Would an implementation that kept using expired entries say otherwise?
+	// (Measures how often expiry decides the verdict.)
+	expiryDecides := false
+	if h.dirty {
+		deadTrue, deadFalse := vfC19VerdictSet(cands, func(p vfC19Pfx) (views [][]vfC19Entry) {
+			if s := h.snaps[p]; s != nil && !s.live {
+				return [][]vfC19Entry{s.es}
+			}
+
+			return h.views(p)
+		})
+		expiryDecides = deadTrue != canTrue || deadFalse != canFalse
 	}
 
 	before := len(h.ups.asked)
@@ -448,20 +466,9 @@ func (h *vfC19History) check(t *rapid.T) {
 		return
 	}
 
-	// Would an implementation that kept using expired entries have said
-	// otherwise?  (Measures how often expiry decides the verdict.)
-	if h.dirty {
-		deadTrue, deadFalse := vfC19VerdictSet(cands, func(p vfC19Pfx) (views [][]vfC19Entry) {
-			if s := h.snaps[p]; s != nil && !s.live {
-				return [][]vfC19Entry{s.es}
-			}
-
-			return [][]vfC19Entry{h.db.byPrefix(p)}
-		})
-		if deadTrue != canTrue || deadFalse != canFalse {
-			vfC19.Class("history:expiry_decides_verdict")
-			h.expiryDecided = true
-		}
+	if expiryDecides {
+		vfC19.Class("history:expiry_decides_verdict")
+		h.expiryDecided = true
 	}
 
 	// non-trivial: a later name shares a prefix with an earlier one and their
@@ -529,6 +536,56 @@ func (h *vfC19History) expire(t *rapid.T) {
 	}
 	h.trace = append(h.trace, fmt.Sprintf("%s all=%t prefixes=%v (entries touched: %d)", what, all, len(targets), n))
 	vfC19.Class("history:step_" + what)
+}
+
+// flipAndRecheck makes the situation in which expiry decides the verdict: the
+// service starts or stops listing a full hash of one of the host's parents,
+// time passes (for all entries, for that prefix only, or not at all), and the
+// host is checked again.
+func (h *vfC19History) flipAndRecheck(t *rapid.T) {
+	host := rapid.SampledFrom(h.hosts).Draw(t, "flip_host")
+	cands := vfC19Candidates(host)
+	if len(cands) == 0 {
+		h.checkHost(t, host)
+
+		return
+	}
+	c := rapid.SampledFrom(cands).Draw(t, "flip_parent")
+	e := vfC19Entry{H: c.Hash, Enc: vfC19EncLower, Kind: "own", Of: c.Name, W: 1}
+	if c.Amb {
+		e.Kind = "own_ambiguous_suffix"
+	}
+	if i := h.db.index(e.H, e.Enc); i >= 0 {
+		h.db.entries = append(h.db.entries[:i:i], h.db.entries[i+1:]...)
+		h.trace = append(h.trace, "db remove "+e.describe())
+	} else {
+		h.db.entries = append(h.db.entries, e)
+		h.trace = append(h.trace, "db add "+e.describe())
+	}
+	h.dirty = true
+	vfC19.Class("history:step_db_flip_own")
+
+	mode := rapid.SampledFrom([]string{"all", "all", "prefix", "none"}).Draw(t, "flip_expire")
+	var targets []vfC19Pfx
+	switch mode {
+	case "all":
+		targets = h.allPfx
+	case "prefix":
+		targets = []vfC19Pfx{c.Hash.pfx()}
+	}
+	n := 0
+	for _, p := range targets {
+		if vfC19ShiftExpiry(h.chk, p, 2*time.Hour) {
+			n++
+		}
+		if s := h.snaps[p]; s != nil {
+			s.live = false
+		}
+	}
+	if mode != "none" {
+		h.trace = append(h.trace, fmt.Sprintf("expire %s prefixes=%d (entries touched: %d)", mode, len(targets), n))
+	}
+	h.checkHost(t, host)
 }
 
 // mutate changes the service database (only in histories drawn as mutable).
@@ -613,11 +670,14 @@ func TestVFC19CacheHistory(t *testing.T) {
 			"": func(t *rapid.T) {},
 			"step": func(t *rapid.T) {
 				kind := rapid.SampledFrom([]string{
-					"check", "check", "check", "check", "check", "check", "expire", "expire", "mutate", "fail",
+					"check", "check", "check", "check", "check", "check", "check", "check", "check", "check",
+					"expire", "expire", "expire", "mutate", "mutate", "flip", "flip", "flip", "flip", "fail",
 				}).Draw(t, "step_kind")
 				switch {
 				case kind == "check":
 					h.check(t)
+				case kind == "flip" && h.mutable:
+					h.flipAndRecheck(t)
 				case kind == "expire" && len(h.allPfx) > 0:
 					h.expire(t)
 				case kind == "mutate" && h.mutable:
